@@ -384,7 +384,21 @@ def alias_closure(repo: Repo, chk: Check, f: Func, fl: Flow) -> None:
                     up = True
                 if isinstance(n, ast.For) and norm.match(T("$a.uses"), n.iter) is not None and any(
                         isinstance(x, ast.Attribute) and x.attr in ("results", "result", "dest") for b_ in n.body for x in ast.walk(b_)):
-                    down = True
+                    # .. transitively: the loop over the uses runs for every value found so far (a worklist that grows while it is walked, or recursion) -
+                    # a view of a view of the buffer is a view of the buffer
+                    src_ = norm.match(T("$a.uses"), n.iter)["a"]
+                    recursive = any(isinstance(x, ast.Call) and isinstance(x.func, ast.Name) and x.func.id == h.name for x in ast.walk(n))
+                    worklist = False
+                    for outer_ in ast.walk(h.node):
+                        if isinstance(outer_, (ast.For, ast.While)) and outer_ is not n and any(x is n for x in ast.walk(outer_)):
+                            if isinstance(outer_, ast.For) and isinstance(outer_.iter, ast.Name) and isinstance(outer_.target, ast.Name) and isinstance(src_, ast.Name) \
+                                    and src_.id == outer_.target.id and any(isinstance(x, ast.Call) and isinstance(x.func, ast.Attribute) and x.func.attr in ("extend", "append")
+                                                                             and isinstance(x.func.value, ast.Name) and x.func.value.id == outer_.iter.id for x in ast.walk(n)):
+                                worklist = True
+                            if isinstance(outer_, ast.While) and any(isinstance(x, ast.Call) and isinstance(x.func, ast.Attribute) and x.func.attr == "pop" for x in ast.walk(outer_)) \
+                                    and any(isinstance(x, ast.Call) and isinstance(x.func, ast.Attribute) and x.func.attr in ("extend", "append") for x in ast.walk(n)):
+                                worklist = True
+                    down = down or recursive or worklist
             for x in ast.walk(h.node):
                 if isinstance(x, ast.Call) and callee_name(x) == "isinstance" and len(x.args) == 2:
                     cls_e = x.args[1]
